@@ -391,6 +391,14 @@ func requireOp(req *fnv1.RunFunctionRequest, rsp *fnv1.RunFunctionResponse, xr m
 			}
 		}
 		rsp.Requirements.ExtraResources["pg"] = &fnv1.ResourceSelector{ApiVersion: av, Kind: kind, Match: &fnv1.ResourceSelector_MatchLabels{MatchLabels: &fnv1.MatchLabels{Labels: map[string]string{"page": fmt.Sprint(page)}}}}
+	case "narrow":
+		// narrows its label selector once it has seen what the wide one matches:
+		// the second round's selector is the first one plus one more label
+		ls := map[string]string{"grp": "x"}
+		if rs, ok := req.GetExtraResources()["nar"]; ok && len(rs.GetItems()) > 0 {
+			ls["tier"] = "a"
+		}
+		rsp.Requirements.ExtraResources["nar"] = &fnv1.ResourceSelector{ApiVersion: av, Kind: kind, Match: &fnv1.ResourceSelector_MatchLabels{MatchLabels: &fnv1.MatchLabels{Labels: ls}}}
 	case "flip":
 		// never stabilises: alternates between two selectors depending on what it was given
 		if _, ok := req.GetExtraResources()["flip-a"]; ok {
